@@ -92,18 +92,19 @@ def fromBigEndian (w : Nat) (b : List UInt8) : Option Int :=
     some (if n < 256 ^ w / 2 then (n : Int) else (n : Int) - (256 : Int) ^ w)
   else none
 
-/-! ### URL encoding (application/x-www-form-urlencoded, as documented for `url_encode`) -/
+/-! ### URL encoding.  The project's own tests pin RFC 3986 percent-encoding (`url_encode('hello world') = 'hello%20world'`),
+not Trino's form encoding (space → `+`): every byte of the UTF-8 form other than an ASCII letter or digit becomes `%XX`
+(upper-case hex); decoding turns every well-formed `%XX` back into a byte and leaves `+` alone. -/
 def isAlnum (n : Nat) : Bool := (48 ≤ n && n ≤ 57) || (65 ≤ n && n ≤ 90) || (97 ≤ n && n ≤ 122)
-def urlSafe (n : Nat) : Bool := isAlnum n || n == 46 || n == 45 || n == 42 || n == 95      -- . - * _
 def hexUp (n : Nat) : Char := if n < 10 then Char.ofNat (48 + n) else Char.ofNat (55 + n)
 def urlEncodeByte (b : UInt8) : List Char :=
-  if urlSafe b.toNat then [Char.ofNat b.toNat] else if b.toNat = 32 then ['+'] else ['%', hexUp (b.toNat / 16), hexUp (b.toNat % 16)]
-/-- `url_encode(s)`: alphanumerics and `.-*_` stay, space becomes `+`, every other UTF-8 byte becomes `%XX` -/
+  if isAlnum b.toNat then [Char.ofNat b.toNat] else ['%', hexUp (b.toNat / 16), hexUp (b.toNat % 16)]
+/-- `url_encode(s)` -/
 def urlEncode (s : List Char) : List Char := (IQE.Utf8.encode s).flatMap urlEncodeByte
 def hexValU (c : Char) : Option Nat :=
   let n := c.toNat
   if 48 ≤ n ∧ n ≤ 57 then some (n - 48) else if 97 ≤ n ∧ n ≤ 102 then some (n - 87) else if 65 ≤ n ∧ n ≤ 70 then some (n - 55) else none
-/-- bytes denoted by an encoded string: `+` is a space, `%XX` a byte; a malformed escape → `none` -/
+/-- bytes denoted by an encoded string: `%XX` is a byte, any other character its UTF-8 bytes; a malformed escape → `none` -/
 def urlDecodeBytes : List Char → Option (List UInt8)
   | [] => some []
   | '%' :: a :: b :: rest => match hexValU a, hexValU b, urlDecodeBytes rest with
@@ -111,9 +112,9 @@ def urlDecodeBytes : List Char → Option (List UInt8)
     | _, _, _ => none
   | '%' :: _ => none
   | c :: rest => match urlDecodeBytes rest with
-    | some r => some ((if c = '+' then [32] else IQE.Utf8.encodeChar c) ++ r)
+    | some r => some (IQE.Utf8.encodeChar c ++ r)
     | none => none
-/-- `url_decode(s)`: malformed escapes or bytes that are not UTF-8 raise -/
+/-- `url_decode(s)`; `none` = malformed escape or the bytes are not UTF-8 (outside the claim) -/
 def urlDecode (s : List Char) : Option (List Char) := (urlDecodeBytes s).bind IQE.Utf8.decode
 
 end IQE.Spec.Fn
